@@ -1,10 +1,10 @@
 SPECIFICATION Spec
 CONSTANTS
   NRules = 2
-  PhaseSet = {1, 2}
+  PhaseSet = {1, 4}
   Lines = {1, 2}
   LinesIgnored = FALSE
-  OffByOne = TRUE
+  OffByOne = FALSE
 INVARIANT Inv_C13_FixPhase
 INVARIANT Inv_C13_PhaseOrder
 INVARIANT Inv_C03_NoneNeverFixes
